@@ -98,6 +98,22 @@ def edit(r, new, g):
   fn = n.__fn_or_cls__
   x = r.random()
   keys = [k for k in n.__arguments__ if isinstance(k, str)]
+  if x < 0.06:
+    # an entry added to / removed from a container (also an EMPTY one) that stays in place
+    cs = containers(new)
+    if cs:
+      c = r.choice(cs)
+      if type(c) is dict:
+        if c and r.random() < 0.3:
+          del c[r.choice(list(c))]
+          return 'dict-'
+        c[r.choice(['n1', 'n2', 7])] = g.value(1) if r.random() < 0.3 else g.leaf()
+        return 'dict+'
+      if c and r.random() < 0.3:
+        c.pop(r.randrange(len(c)))
+        return 'list-'
+      c.append(g.leaf())
+      return 'list+'
   if x < 0.2 and keys:
     setattr(n, r.choice(keys), g.leaf())
     return 'value'
